@@ -493,7 +493,14 @@ def judge_load(line, impl, meta):
 
 def run(ctx):
     rng = ctx.rng
-    ctx.regen(["Pnm"])
+    if not ctx.regen(["Pnm"]):
+        # core.regen removes gen/GenPnm.v when the translator fails; a compiled file left from an
+        # earlier run would still satisfy make, so remove it as well (request to lead: do this in core)
+        for ext in (".vo", ".vos", ".vok", ".glob"):
+            try:
+                os.remove(os.path.join(core.COQ, "gen", "GenPnm" + ext))
+            except OSError:
+                pass
     ctx.prove()
     drv = ctx.model_driver()
     flavours = ["simd", "asan"]
@@ -515,16 +522,16 @@ def run(ctx):
                     f = l.split()
                     meta = {"prec": int(f[1]), "maxpixels": int(f[5])} if f[0] == "load" else {"prec": int(f[1]) if f[0] != "cj" else 8, "maxpixels": 0}
                     cases.append((l, "corpus-" + os.path.splitext(fn)[0], meta))
-    for i in range(ctx.n(5000, 120000)):
+    for i in range(ctx.n(8000, 100000)):
         cases.append(pnm_load_case(rng, small=not rng.chance(1, 15)))
-    for i in range(ctx.n(1200, 30000)):
+    for i in range(ctx.n(2000, 30000)):
         cases.append(rand_load_case(rng))
-    for i in range(ctx.n(600, 10000)):
+    for i in range(ctx.n(1000, 10000)):
         cases.append(save_case(rng))
-    for i in range(ctx.n(1500, 40000)):
+    for i in range(ctx.n(2500, 40000)):
         cases.append(bmp_load_case(rng))
-    cases += rt_cases(rng, ctx.n(300, 6000))
-    for i in range(ctx.n(3000, 80000)):
+    cases += rt_cases(rng, ctx.n(500, 6000))
+    for i in range(ctx.n(5000, 60000)):
         cases.append(cj_case(rng))
     return run_cases(ctx, cases, exes, drv, flavours)
 
@@ -536,6 +543,7 @@ def run_cases(ctx, cases, exes, drv, flavours):
     env = {"ASAN_OPTIONS": "allocator_may_return_null=1:detect_leaks=1:abort_on_error=0", "UBSAN_OPTIONS": "print_stacktrace=1"}
     outs = {}
     for fl, exe in exes.items():
+        ctx.log("running %d cases through the %s build" % (len(cases), fl))
         rc, out, err = sh2([exe, scratch], input=inp, timeout=3000, env=env)
         lines = out.decode("utf-8", "replace").split("\n")
         if lines and lines[-1] == "":
@@ -556,7 +564,9 @@ def run_cases(ctx, cases, exes, drv, flavours):
         outs[fl] = lines
     mlines = None
     if drv:
+        ctx.log("running the extracted model")
         rc, out, err = sh2([drv], input=inp, timeout=3000)
+        ctx.log("model done")
         mlines = out.decode().split("\n")
         if rc != 0 or len(mlines) < len(cases):
             ctx.broken_tie("model-driver", "extracted model failed: rc=%d %s" % (rc, err[-200:]))
